@@ -285,12 +285,21 @@ def r3b(ctx):
         if eq:
             b, o, tr, fl = eq[0]
             match, differ = (tr, fl) if o[1] == "Eq" else (fl, tr)
-            rets = [(bb, t) for bb, _, t in ok_returns(fs) if "take" in term_str(t) and "extra" in term_str(t)]
+            # the value handed out is the queue's extra node (taken with take(), or moved out by take_if)
+            rets = [(bb, t) for bb, _, t in ok_returns(fs) if "extra" in term_str(t) and ("take" in term_str(t) or "self.extra" in term_str(t))]
+            # removals of the extra node: take() calls on it, or `self.extra = None`
+            removals = [s_ for s_, t_ in fs.calls() if (t_.get("callee") or "").endswith("::take") and "extra" in term_str(fs.arg_origin(s_, 0))]
+            removals += [bb for bb, si in assign_sites(fs, "self.extra") if is_agg(fs.origin_rvalue(fs.blocks[bb].stmts[si]["rv"], bb, si), "None")]
             # put back: an assignment of the taken value to self.extra lies on every way from the
-            # mismatch edge to a return (it may also run when nothing was taken: `self.extra = other`)
+            # mismatch edge to a return (it may also run when nothing was taken: `self.extra = other`);
+            # not needed when the node is only removed once the index is known to match (take_if)
             puts = [(bb, si) for bb, si in assign_sites(fs, "self.extra") if "take" in term_str(fs.origin_rvalue(fs.blocks[bb].stmts[si]["rv"], bb, si))]
-            lost = [r for r in fs.returns if r in fs.reach(differ, avoiding=[bb for bb, _ in puts], include_src=True)] if differ not in [bb for bb, _ in puts] else []
-            good = bool(rets) and all(fs.dominates(match, bb) for bb, _ in rets) and bool(puts) and not lost
+            removed_before = [r_ for r_ in removals if fs.can_reach(r_, differ) or r_ == differ]
+            lost = []
+            if removed_before:
+                lost = [r for r in fs.returns if r in fs.reach(differ, avoiding=[bb for bb, _ in puts], include_src=True)] if differ not in [bb for bb, _ in puts] else []
+                lost = lost if puts else list(fs.returns)
+            good = bool(rets) and all(fs.dominates(match, bb) for bb, _ in rets) and bool(removals) and not lost
         ctx.check(P, rule, "the extra node leaves the queue only for the index it has", good, "extra.index == index => return it, else put it back",
                   "NodeQueue::shift hands out (or drops) the extra node without matching its index", key="C04|C04.R3|NodeQueue::shift|extra index match")
 
